@@ -198,7 +198,9 @@ with SqliteImpl.impl_store.impl_manager as impl:
     # like 1e19. surprisingly, 1e18 works... what a coincidence... :)
     @impl(ops.floor)
     def _floor(x):
-        return -sqa.func.ceil(-x)
+        if isinstance(x.type, sqa.Integer):
+            x = sqa.cast(x, sqa.Double())
+        return -sqa.func.ceil(-x, type_=x.type)
 
     @impl(ops.is_nan)
     def _is_nan(x):
